@@ -169,7 +169,7 @@ func newOracle() *oracle {
 }
 
 func (o *oracle) add(tok string) {
-	if len(tok) > 8192 {
+	if len(tok) > 1<<17 {
 		return
 	}
 	if _, ok := o.pf[tok]; ok {
